@@ -77,8 +77,9 @@ ConcStep(To, e) ==
             THEN V(TRUE, Tq, "")
             \* known finding: a lookup overlapping the replacement of a file-backed value raises KeyError
             \* (membership of a MutableMapping is "try self[key]": the same lookup)
-            ELSE IF "D_lookup_replace_race" \in Dev /\ cl.a.k \in cl.written /\
-                    ((cl.op = "getitem" /\ e.ret = IKeyError) \/ (cl.op = "contains" /\ e.ret = IR("false", <<>>)))
+            ELSE IF "D_lookup_replace_race" \in Dev /\
+                    ((cl.op = "getitem" /\ e.ret = IKeyError) \/ (cl.op = "contains" /\ e.ret = IR("false", <<>>))) /\
+                    cl.a.k \in cl.written
             THEN V(TRUE, [Tq EXCEPT !.known = @ \cup {"D_lookup_replace_race"}], "KNOWN")
             ELSE V(FALSE, To, "C12 " \o cl.op \o " returned " \o ToJson(e.ret) \o
                               " which no contents committed during the call explain: " \o ToJson(cl.cand))
